@@ -1,5 +1,6 @@
 import RichModel.Lemmas.AnsiForeign
 import RichModel.Lemmas.AnsiLegacy
+import RichModel.Lemmas.AnsiCsi
 /-!
 # C19 — the ANSI decoder inverts the truecolor encoder, and redirected output is never lost
 
@@ -11,9 +12,16 @@ Everything here holds for lines, texts, styles, histories of any size.  `decide 
 only for the two table obligations and for closed witnesses that look a character up in those tables.
 
 The code variants (`Ansi.Cfg`): `intRaises` (F10), `flushRaw` (F20) — repaired in /repo — and `emptyIgnored` (F27),
-`resetDropsLink` (F28), `offSingle` (F29) are `true` for rich 9.10.0 as found; the full-strength theorems are
+`resetDropsLink` (F28), `offSingle` (F29), `crErases` (F31), `sgrLazy` (F32) are `true` for rich 9.10.0 as found; the full-strength theorems are
 proved for the repaired variant and the `old_…` theorems show by evaluation that the variant as found violates
 them.  The round trip `decode_encode` holds for every variant (the encoder never writes what F27-F29 are about).
+
+A carriage return that is NOT at the end of a line is outside the statement: `decode_line` keeps what follows the
+last one ("what is visible after the cursor returned": `10%\r50%\r100%` → `100%`), which is what the code means
+to do and agrees with a terminal whenever the later text is at least as long as the earlier; a faithful overwrite
+(`abc\rxy` → `xyc`) would need cell positions, which a line of text printed through the console does not have.
+The proxy theorems hold for such lines too (they are about what is handed to the decoder); only "complete" is
+then relative to that reading, and the generators keep interior CRs in the model-only stream.
 
 Outside the statement (observed by the harness, not a theorem, not a check): `Live.stop` / `Progress.stop` do not
 flush the two proxies.  A partial line pending at `stop()` is not a *line written* (no newline yet) and no *flush*
@@ -52,7 +60,7 @@ theorem decode_encode (cfg : Ansi.Cfg) (segs : List Seg) (hok : ∀ g ∈ segs, 
       charsOf runs = expectedChars segs := by
   obtain ⟨x, st2, runs, hx, hcr, hR, hb, hch⟩ := segs_roundtrip cfg segs hok st hst [] rfl
   refine ⟨x, st2, runs, hx, ?_, hb, by simpa using hch⟩
-  simpa [decodeLine, R, tokenize, afterLastCR_noCR x hcr] using hR
+  simpa [decodeLine, R, tokenize, afterLastCR_noCR cfg.crErases x hcr] using hR
 
 /-- The same for a whole printed text: lines decoded one after the other by one decoder
 (`AnsiDecoder.decode` after `splitlines`) — the style carried from line to line is blank at every line
@@ -162,7 +170,7 @@ theorem old_flush_prints_raw :
 /-- F10 through the proxy, code as found: `write("q\n\x1b[²m\n")` raises and prints nothing — the complete
 line `q` is lost (`units` says it must be printed). -/
 theorem old_write_loses_line :
-    (run ⟨true, false, false, false, false⟩ Proxy.init [.write ['q', '\n', ESC, '[', '²', 'm', '\n']]).2 = [.raised .valueError] ∧
+    (run ⟨true, false, false, false, false, false, true⟩ Proxy.init [.write ['q', '\n', ESC, '[', '²', 'm', '\n']]).2 = [.raised .valueError] ∧
     units [.write ['q', '\n', ESC, '[', '²', 'm', '\n']] = [['q'], [ESC, '[', '²', 'm']] := by
   decide +kernel
 
@@ -229,6 +237,40 @@ theorem old_reset_drops_link :
 theorem old_off_keeps_double :
     (absStyle (applyCodes Ansi.Cfg.old Style.null [21, 24] 0).1).on = 512 ∧
     (ecmaFold ⟨0, none, none, none⟩ [21, 24] 0).on = 0 := by decide +kernel
+
+/-! ## Foreign output: CR LF line ends and control sequences other than SGR -/
+
+/-- **crlf_lines_complete** (repaired F31).  A line of CR LF terminated output reaches `decode_line` with its
+carriage return(s) at the end (the proxy cuts at LF only): they erase nothing — the text comes out complete. -/
+theorem crlf_lines_complete (cfg : Ansi.Cfg) (hc : cfg.crErases = false) (st : Style) (l : List Char)
+    (h : textOk l = true) (k : Nat) :
+    ∃ runs, decodeLine cfg st (l ++ List.replicate k '\r') = (st, .ok runs) ∧ plainOf runs = l :=
+  decodeLine_trailing_cr cfg hc st l h k
+
+/-- **other_csi_dropped** (repaired F32).  A control sequence `ESC [ params intermediates final` that is not SGR
+(cursor show / hide, erase, cursor movement, private sequences …) is dropped and the text before and after it
+comes out complete — nothing up to "the next letter m" is swallowed. -/
+theorem other_csi_dropped (cfg : Ansi.Cfg) (hl : cfg.sgrLazy = false) (st : Style) {ps is : List Char} {f : Char}
+    (h : OtherCsi ps is f) (t1 t2 : List Char) (h1 : textOk t1 = true) (h2 : textOk t2 = true) :
+    ∃ runs, decodeLine cfg st (t1 ++ csiSeq ps is f ++ t2) = (st, .ok runs) ∧ plainOf runs = t1 ++ t2 :=
+  decodeLine_other_csi cfg hl st h t1 t2 h1 h2
+
+/-- F31 on the code as found: `write("foo\r\n")` — the line `foo\r` decodes to nothing. -/
+theorem old_trailing_cr_erases_line :
+    ((decodeLine Ansi.Cfg.old Style.null ['f', 'o', 'o', '\r']).2.toOption.map plainOf) = some [] ∧
+    ((decodeLine Ansi.Cfg.repaired Style.null ['f', 'o', 'o', '\r']).2.toOption.map plainOf) = some ['f', 'o', 'o'] := by
+  decide +kernel
+
+/-- F32 on the code as found: `ESC[?25l` followed by `loading items` — everything up to the `m` is swallowed. -/
+theorem old_csi_swallows_text :
+    ((decodeLine Ansi.Cfg.old Style.null (ESC :: '[' :: "?25lloading items".toList)).2.toOption.map plainOf) = some ['s'] ∧
+    ((decodeLine Ansi.Cfg.repaired Style.null (ESC :: '[' :: "?25lloading items".toList)).2.toOption.map plainOf)
+      = some "loading items".toList := by
+  decide +kernel
+
+example : OtherCsi ['?', '2', '5'] [] 'l' := ⟨by decide, by decide, by decide, Or.inl (by decide)⟩
+example : OtherCsi ['2'] [] 'K' := ⟨by decide, by decide, by decide, Or.inl (by decide)⟩
+example : OtherCsi ['>', '4', ';', '2'] [] 'm' := ⟨by decide, by decide, by decide, Or.inr (Or.inr ⟨'>', by decide, by decide⟩)⟩
 
 /-! ## `legacy_windows=True` -/
 
